@@ -1,1 +1,2 @@
 import Dawgs.Props.C16
+import Dawgs.Props.C18
